@@ -59,7 +59,8 @@ AccCfgOut == [groups |-> [j \in 1..Len(AccCfg.groups) |-> <<AccCfg.groups[j].nam
 NoDec == [ok |-> FALSE, keys |-> <<>>, inc |-> 0]
 DecOf(el) ==
   CASE Which = "ctr" -> Decode(el, 1)
-    [] Which \in {"sub", "tbl"} -> Decode(el, 2)             \* tbl: keys = <<column, row>>
+    [] Which = "sub" -> Decode(el, 2)
+    [] Which = "tbl" -> DecodeD(el, 2, MCDelim)              \* keys = <<column, row>>
     [] Which = "num" -> LET d == NumParseB(el, MCBase) IN [ok |-> d.c = "num", keys |-> <<>>, inc |-> d.v]   \* delta, milli
     [] OTHER -> NoDec
 Step(op, el, p, nsel, obs) ==
@@ -86,14 +87,14 @@ FoldOK ==
   Plain =>
   CASE Which = "ctr" -> ctr = CtrFold(Samples)
     [] Which = "sub" -> sub = SubFold(Samples)
-    [] Which = "tbl" -> NoTrim => tbl = TblFold(Samples)
+    [] Which = "tbl" -> NoTrim => tbl = TblFoldD(Samples, MCDelim)
     [] Which = "num" -> /\ num = NumFoldB(Samples, MCBase)
                         /\ FullMomentsOK(num, MCBase, Samples)     \* exact moments of the full values
     [] Which = "acc" -> acc = AccFold(AccCfg, Samples)
 RECURSIVE RunCtr(_, _)  RECURSIVE RunSub(_, _)  RECURSIVE RunTbl(_, _)  RECURSIVE RunNum(_, _)
 RunCtr(s, h) == IF h = <<>> THEN s ELSE RunCtr(CtrStep(s, h[1]), Tail(h))
 RunSub(s, h) == IF h = <<>> THEN s ELSE RunSub(SubStep(s, h[1]), Tail(h))
-RunTbl(s, h) == IF h = <<>> THEN s ELSE RunTbl(TblStep(s, h[1]), Tail(h))
+RunTbl(s, h) == IF h = <<>> THEN s ELSE RunTbl(TblStepD(s, h[1], MCDelim), Tail(h))
 RunNum(s, h) == IF h = <<>> THEN s ELSE RunNum(NumStepB(s, h[1], MCBase), Tail(h))
 RECURSIVE RunSk(_, _)  RECURSIVE RunTb(_, _)
 RunSk(s, h) == IF h = <<>> THEN s ELSE RunSk(SkSample(s, h[1]), Tail(h))
@@ -117,6 +118,6 @@ PermInv ==
         [] Which = "num" -> RunNum(NumInit, h) = num
         [] OTHER -> TRUE
 
-Dump == PrintT("VFJ " \o ToJson([agg |-> Which, prof |-> Profile, base |-> MCBaseText, h |-> hist, exp |-> Obs,
+Dump == PrintT("VFJ " \o ToJson([agg |-> Which, prof |-> Profile, base |-> MCBaseText, delim |-> MCDelim, h |-> hist, exp |-> Obs,
                                  cfg |-> IF Which = "acc" THEN AccCfgOut ELSE NoObs]))
 =============================================================================
